@@ -104,6 +104,7 @@ Fixpoint render_events (n : node) : res (list event) :=
   | KInlineRoot _ _ | KEmphMarker _ _ _ _ _ | KEmpty => panic Unimplemented
   | KCustomBlock => ret [ECr; ESelfClose (bs "cb") attrs; ECr]
   | KCustomInline v => ret [EOpen (bs "ci") attrs; EText (dec v); EClose (bs "ci")]
+  | KCustomPair _ => do c <- contents; ret ([EOpen (bs "cp") attrs] ++ c ++ [EClose (bs "cp")])
   | KCustomCore v => ret [ECr; EOpen (bs "cc") attrs; EText (dec v); EClose (bs "cc"); ECr]
   end.
 
